@@ -166,7 +166,7 @@ def main_for(scn, prop, argv):
         vv = [x for x in rr["violations"] if x["property"] == prop and viol_key(x) == k]
         if not vv:
             small, rr, vv = p, r, [v]
-        path = os.path.join(build.VERIF, "replays", "%s-%d-%s.json" % (prop, seed, plan_hash(small)))
+        path = os.path.join(build.VERIF, "replays", "%s-%d-%s-%s.json" % (prop, seed, plan_hash(small), runner.sha(k)[:6]))
         os.makedirs(os.path.dirname(path), exist_ok=True)
         with open(path, "w") as f:
             json.dump({"property": prop, "scenario": scn.NAME, "seed": seed, "class": json.loads(k), "msg": vv[0]["msg"],
